@@ -12,6 +12,7 @@ Families (every failure carries the event list / offsets needed to reproduce it)
     in flight: each caller gets the value of its own call.
  D  SocketRPCServer shutdown with calls in flight, after an hour of loop time: the handlers are not cancelled,
     serve() waits for them and returns.
+ H  framing round trip: _encode_message read back by _recv_stream_message and _recv_socket_message.
  G  bursts: 70 / 150 / 300 calls in flight on one connection completed within one event-loop turn, with the send loop
     blocked in drain() by a peer that does not read, and with a free send loop: one reply per call.
  E  a handler that fails while it is being cancelled (teardown after garbage): serve() still ends, and with the
@@ -312,6 +313,40 @@ async def family_g(ctx, problems, sizes=(70, 150, 300)):
             await run.teardown()
 
 
+async def family_h(ctx, problems, n=60):
+    """Framing round trip on the implementation alone: what _encode_message writes, _recv_stream_message (asyncio
+    stream, cut into fragments) and _recv_socket_message (blocking reader) read back as the same call id and body."""
+    from stepup.core.rpc import _encode_message, _recv_socket_message, _recv_stream_message, _SocketReader
+    from .c16_driver import FragmentSocket
+    rng = ctx.rng
+    for k in range(n):
+        cid = rng.choice([0, 1, 255, 256, 2 ** 32 + 5, 2 ** 64 - 1, rng.randrange(2 ** 64)])
+        body = rng.choice([None, b"", b"x", bytes(rng.randrange(256) for _ in range(rng.randint(1, 300)))])
+        want = (cid, body if body else None)
+        wit = {"call_id": cid, "body": None if body is None else body.hex()}
+        ctx.case(("implH", cid, body), True)
+        try:
+            data = _encode_message(cid, body)
+            cut = rng.randint(0, len(data))
+            reader = asyncio.StreamReader()
+            reader.feed_data(data[:cut])
+            reader.feed_data(data[cut:])
+            reader.feed_eof()
+            got = await asyncio.wait_for(_recv_stream_message(reader), 30)
+            rest = await reader.read()
+            got2 = _recv_socket_message(_SocketReader(FragmentSocket([data[:cut], data[cut:]] if 0 < cut < len(data)
+                                                                     else [data]), "sock"))
+        except Exception as e:  # noqa: BLE001
+            problems.append(("framing:roundtrip-raises", f"message (id {cid}, body {wit['body'] and len(body)} bytes) "
+                             f"could not be read back: {type(e).__name__}: {e}", wit))
+            return
+        if got != want or got2 != want or rest:
+            problems.append(("framing:roundtrip-differs", f"message (id {cid}, body of {0 if not body else len(body)} "
+                             f"bytes) was read back as stream={str(got)[:80]} socket={str(got2)[:80]} leftover={len(rest)}",
+                             wit))
+            return
+
+
 def run_guarded(coro, seconds):
     """asyncio.run under a wall-clock guard (family D moves the loop clock, so no asyncio timeout around it)."""
     import threading
@@ -329,14 +364,27 @@ def run_guarded(coro, seconds):
 
 
 def run_all(ctx, tmp, deep=False):
+    """The in-memory families first; the families on a real socket only when those found nothing (with broken framing
+    or lost replies they would merely run into their timeouts). A family that raises is reported, what the earlier
+    ones found is kept."""
     problems = []
 
-    async def main():
-        await family_a(ctx, 2500 if deep else ctx.scale(150, 1500), problems)
-        await family_b(ctx, problems, stride=1)
-        await family_e(ctx, problems)
-        await family_g(ctx, problems, (70, 150, 300, 700) if deep else (70, 150, 300))
-        await family_c(ctx, tmp, problems)
-    run_guarded(main(), 900)
-    run_guarded(family_d(ctx, tmp, problems), 300)
+    async def guarded(name, coro):
+        try:
+            await coro
+        except Exception as e:  # noqa: BLE001
+            problems.append((f"family-{name}-raised:{type(e).__name__}", f"oracle family {name} ended on "
+                             f"{type(e).__name__}: {e}", {"family": name}))
+
+    async def memory():
+        await guarded("H", family_h(ctx, problems, 400 if deep else 60))
+        await guarded("A", family_a(ctx, 2500 if deep else ctx.scale(150, 1500), problems))
+        await guarded("B", family_b(ctx, problems, stride=1))
+        await guarded("E", family_e(ctx, problems))
+        await guarded("G", family_g(ctx, problems, (70, 150, 300, 700) if deep else (70, 150, 300)))
+    run_guarded(memory(), 900)
+    if problems:
+        return problems
+    run_guarded(guarded("C", family_c(ctx, tmp, problems)), 300)
+    run_guarded(guarded("D", family_d(ctx, tmp, problems)), 300)
     return problems
